@@ -418,6 +418,16 @@ def gen_request(rng, sim, known_etags):
             r.update(if_match_present=True, if_match_value='"deadbeef"')
         return r
     if k < 0.74:
+        store = [e for e in (getattr(sim, "model_store", None) or []) if any(not i["href"].startswith("#") for i in e["items"])]
+        if store and rng.random() < 0.5:
+            # MOVE of an item that exists, onto a name that exists (same or other UID) or is free, in the same or another collection
+            src_c = rng.choice(store)
+            src_i = rng.choice([i for i in src_c["items"] if not i["href"].startswith("#")])
+            dst_c = src_c if rng.random() < 0.5 else rng.choice(store + [{"path": rng.choice(COLLS[1:6]), "items": []}])
+            others = [i["href"] for i in dst_c["items"] if not i["href"].startswith("#") and (dst_c is not src_c or i["href"] != src_i["href"])]
+            href = rng.choice(others) if others and rng.random() < 0.65 else rng.choice(HREFS)
+            return {"method": "MOVE", "path": list(src_c["path"]) + [src_i["href"]], "dest": list(dst_c["path"]) + [href],
+                    "overwrite": rng.random() < 0.65}
         dst = rng.choice(COLLS[1:6]) + [rng.choice(HREFS)] if rng.random() < 0.9 else rng.choice(COLLS)
         return {"method": "MOVE", "path": item_path if rng.random() < 0.9 else coll, "dest": dst, "overwrite": rng.random() < 0.5}
     if k < 0.80:
